@@ -1,6 +1,7 @@
 from typing import Awaitable
 from pyg_base._decorators import wrapper
 import asyncio
+import inspect
 __all__ = ['waiter', 'async_wrapper']
 
 
@@ -55,7 +56,7 @@ async def waiter(value):
     elif isinstance(value, dict):
         values = await asyncio.gather(*[waiter(v) for v in value.values()])
         return type(value)(dict(zip(value.keys(), values))) 
-    elif isinstance(value, Awaitable):
+    elif isinstance(value, Awaitable) or inspect.isawaitable(value): ## generator-based coroutines (types.coroutine) are awaitable but not instances of Awaitable
         return await value
     else:
         return value
